@@ -276,6 +276,28 @@ def St.final (s : St) : Bool := s.threads.all (fun th => th.out != .running)
 /-- no thread can take a step -/
 def St.stuck (v : Variant) (lf : Bool) (s : St) : Bool := (s.enabledSet v lf).isEmpty
 
+/-- the lines inside a `with self.prepare_lock:` block (including the line that leaves it) -/
+def Pc.locked : Pc → Bool
+  | .pIfThread | .pRet1 | .pIfConn | .pRet2 | .pMk | .pStart | .pExit
+  | .rRead | .rIf | .rJoin | .rIfConn | .rRun | .rExit => true
+  | _ => false
+
+/-! ### ranking function: an upper bound on the lines still to be executed -/
+
+/-- lines the thread can still execute in its current operation (including the three lines of a
+    starter thread it may yet create) -/
+def Pc.weight : Pc → Nat
+  | .pWith => 9 | .pIfThread => 8 | .pRet1 => 2 | .pIfConn => 7 | .pRet2 => 2 | .pMk => 6 | .pStart => 5 | .pExit => 1
+  | .rWith => 11 | .rRead => 10 | .rIf => 9 | .rJoin => 8 | .rIfConn => 7 | .rRun => 6 | .rExit => 5
+  | .tTry => 3 | .tRun => 2 | .tClear => 1
+  | .cTry => 15 | .cConn => 14 | .cExcept => 13 | .cRun => 12 | .cSend => 4 | .cRecv => 3 | .cIf => 2 | .cRet => 1
+  | .clTry => 5 | .clConn => 4 | .clExcept => 2 | .clPass => 1 | .clSend => 3 | .clClose => 2 | .clDel => 1
+  | .done => 0
+
+def Thr.rank (th : Thr) : Nat := th.pc.weight + (th.ops.map (fun o => o.entry.weight)).sum
+
+def St.rank (s : St) : Nat := (s.threads.map Thr.rank).sum
+
 def noClose (w : List (List Op)) : Bool := w.all (fun ops => ops.all (· != .close))
 def hasCall (w : List (List Op)) : Bool := w.any (fun ops => ops.any (· == .call))
 
